@@ -5,11 +5,11 @@ from .. import app, docprops, engine
 from ..runner import Run, h64
 from .c07 import CRASH_RE, alone_args
 
-PLAN = {"B2/211": 160, "B3/353": 100, "N1/43": 220, "W1/8": 180, "S2/4": 120, "S3": 40, "I4/389": 60, "X2/9": 40, "H4/5": 60, "P2/9": 60, "T4/37": 40, "Z1/4": 150}
+PLAN = {"B2/211": 160, "B3/353": 100, "N1/43": 220, "W1/8": 180, "S2/4": 120, "S3": 40, "I4/389": 60, "X2/9": 40, "H4/5": 60, "P2/9": 60, "T4/37": 40, "Z1/4": 150, "Q2/9": 60, "P3/17": 60, "M3/97": 40, "L6/17": 40}
 EVALUATOR = "vp.props.c12:ev"
 RULE = (
     "documents = sub-lattices of the bounded universes that parse; per document every registered rule (46, md999 excluded) is scanned alone, then the "
-    "default set, all rules, and the default set minus k rules chosen by source hash (k=4); plus, when a line carries failures of >= 2 rules, the same law on the document with a disable-next-line pragma naming the last-sorted of them; oracle: multiset of (line, column, rule id, text) "
+    "default set, all rules, and the default set minus k rules chosen by source hash (k=4); plus, when a line carries failures of >= 2 rules, the same law on the document with a disable-next-line pragma naming the last-sorted of them, and (one document in three) on the document behind a YAML front-matter block without title with the front-matter extension enabled; oracle: multiset of (line, column, rule id, text) "
     "under each set equals the union of the alone-results of its members; non-trivial = >=3 rules report on the document; distinct by source hash"
 )
 
@@ -92,6 +92,28 @@ def ev(src, opts, rank):
                     if got != want:
                         diff_rules = sorted({f[2] for f in (got - want)} | {f[2] for f in (want - got)})
                         problems.add("pragma-variant|" + ("extra" if got - want else "") + ("missing" if want - got else "") + ":" + ",".join(diff_rules))
+    # variant with the front-matter extension enabled and a YAML block without a `title` key in front of the document
+    # (one document in three): rules that look at the front-matter token must not change what other rules see
+    if h % 3 == 0 and not src.startswith("---") and "\r" not in src:
+        d3 = "---\nauthor: x\n---\n" + src
+        fm = ["--set", "extensions.front-matter.enabled=$!True"]
+        got = _scan(d3, fm + ["-e", ",".join(i for i in ids if i not in dflt)])
+        if got is not None:
+            want = collections.Counter()
+            ok = True
+            for r in sorted(set(reporting) | {f[2].lower() for f in got} | {"md001", "md025", "md041"}):
+                if r not in ids:
+                    continue
+                b = _scan(d3, fm + alone_args(r))
+                if b is None:
+                    ok = False
+                    break
+                want.update(b)
+            if ok:
+                labels.append("front-matter-variant")
+                if got != want:
+                    diff_rules = sorted({f[2] for f in (got - want)} | {f[2] for f in (want - got)})
+                    problems.add("front-matter-variant|" + ("extra" if got - want else "") + ("missing" if want - got else "") + ":" + ",".join(diff_rules))
     if problems:
         return "fail", ";".join(sorted(problems)), nt, labels
     return "pass", None, nt, labels
